@@ -5,6 +5,8 @@ import (
 	"reflect"
 	"strconv"
 	"strings"
+	"unicode"
+	"unicode/utf8"
 
 	"gitee.com/xuesongtao/protoc-go-valid/valid/internal"
 	// "gitlab.cd.anpro/go/common/valid/internal"
@@ -139,6 +141,10 @@ func IsExported(fieldName string) bool {
 		return false
 	}
 	first := fieldName[0]
+	if first >= utf8.RuneSelf { // 非 ASCII 首字符: 按 Go 的定义(大写字母)判断
+		r, _ := utf8.DecodeRuneInString(fieldName)
+		return unicode.IsUpper(r)
+	}
 	return first >= 'A' && first <= 'Z'
 }
 
